@@ -571,7 +571,7 @@ func (e *Exec) rxFindSubmatch(st *State, rn *rxNative, s *Str) Outcome {
 		}
 		return e.mkStringSlice(s2, groups), true
 	}
-	return Outcome{Kind: OutAlts, Alts: []AltOut{
+	return Outcome{Kind: OutAlts, Exhaustive: true, Alts: []AltOut{
 		{Cond: matched, ValFn: mkResult},
 		{Cond: c.Not(matched), Val: &SliceV{}},
 	}}
@@ -705,7 +705,7 @@ func registerRegexp(m map[string]Intrinsic) {
 		}
 		matched := e.rxMatch(p, s)
 		start := e.rxLeftmostStart(sh, s)
-		return Outcome{Kind: OutAlts, Alts: []AltOut{
+		return Outcome{Kind: OutAlts, Exhaustive: true, Alts: []AltOut{
 			{Cond: matched, Val: e.StrSlice(s, e.i64(0), start)},
 			{Cond: e.C.Not(matched), Val: s},
 		}}
